@@ -234,3 +234,74 @@ func GovcC03AllZeroPosition() {
   r.VdivS(a, NewFloat64(y))
   govcCheckEq("VdivS[1]", r.ConstAt(1).GetFloat64(), x/y)
 }
+
+// concrete (capital-letter) sparse operations: all operands sparse, built from lists (zeros dropped)
+// or with every position stored; receivers sparse full / empty / partly filled
+func govcSparse(vals []float64, storage int) *SparseFloat64Vector {
+  return govcVector(vals, storage).(*SparseFloat64Vector)
+}
+
+func govcSparseReceiver(n int, sr int) *SparseFloat64Vector {
+  return govcReceiver(n, sr).(*SparseFloat64Vector)
+}
+
+func GovcC03ConcreteVopV() {
+  n := 2
+  a0 := govcSymVals("a", n)
+  b0 := govcSymVals("b", n)
+  for _, op := range []string{"add", "sub", "mul"} {
+    for sr := 1; sr < 4; sr++ {
+      for sa := 1; sa < 3; sa++ {
+        for sb := 1; sb < 3; sb++ {
+          r := govcSparseReceiver(n, sr)
+          a := govcSparse(a0, sa)
+          b := govcSparse(b0, sb)
+          switch op {
+          case "add":
+            r.VADDV(a, b)
+          case "sub":
+            r.VSUBV(a, b)
+          default:
+            r.VMULV(a, b)
+          }
+          tag := fmt.Sprintf("%sV[r%d,a%d,b%d]", op, sr, sa, sb)
+          for i := 0; i < n; i++ {
+            govcCheckEq(fmt.Sprintf("%s[%d]", tag, i), r.ConstAt(i).GetFloat64(), govcExpect(op, a0[i], b0[i]))
+          }
+        }
+      }
+    }
+  }
+}
+
+func GovcC03ConcreteVopS() {
+  n := 2
+  a0 := govcSymVals("a", n)
+  s0 := govcSym("s")
+  for _, op := range []string{"add", "sub", "mul", "div"} {
+    if op == "div" {
+      govcAssume(s0 != 0.0)
+    }
+    for sr := 1; sr < 4; sr++ {
+      for sa := 1; sa < 3; sa++ {
+        r := govcSparseReceiver(n, sr)
+        a := govcSparse(a0, sa)
+        s := NewFloat64(s0)
+        switch op {
+        case "add":
+          r.VADDS(a, s)
+        case "sub":
+          r.VSUBS(a, s)
+        case "mul":
+          r.VMULS(a, s)
+        default:
+          r.VDIVS(a, s)
+        }
+        tag := fmt.Sprintf("%sS[r%d,a%d]", op, sr, sa)
+        for i := 0; i < n; i++ {
+          govcCheckEq(fmt.Sprintf("%s[%d]", tag, i), r.ConstAt(i).GetFloat64(), govcExpect(op, a0[i], s0))
+        }
+      }
+    }
+  }
+}
